@@ -1404,7 +1404,68 @@ def task_project_wiring(scratch, tier, seed, logdir):
         ob.d["queries"] += len(paths)
     except (LookupError, ValueError, RuntimeError, KeyError, IndexError) as e:
         ob.fail("inconclusive", f"translator: {type(e).__name__}: {e}")
+    if ob.d["status"] != "holds":
+        # a form the model does not recognise (e.g. a fast path) or calls wrong: the real function
+        # against the definition of the projection decides
+        ob.d["native_test"] = dict(crate="sfs-core", file="core/src/spectrum.rs", name="kv_project_against_definition", code=PROJECT_NATIVE_TEST)
     return [ob.done()]
+
+
+PROJECT_NATIVE_TEST = r"""
+    #[test]
+    fn kv_project_against_definition() {
+        fn c(n: usize, k: usize) -> f64 {
+            if k > n {
+                return 0.0;
+            }
+            let k = k.min(n - k);
+            (1..=k).fold(1.0f64, |acc, i| acc * (n - k + i) as f64 / i as f64)
+        }
+        fn unrank(mut flat: usize, shape: &[usize]) -> Vec<usize> {
+            let mut idx = vec![0; shape.len()];
+            for j in (0..shape.len()).rev() {
+                idx[j] = flat % shape[j];
+                flat /= shape[j];
+            }
+            idx
+        }
+        let shapes: Vec<Vec<usize>> = vec![
+            vec![1], vec![2], vec![3], vec![5], vec![8], vec![3, 3], vec![3, 5], vec![5, 3], vec![1, 4], vec![4, 1], vec![2, 2],
+            vec![3, 3, 3], vec![2, 3, 4], vec![3, 1, 2], vec![3, 3, 1], vec![1, 3, 3],
+        ];
+        for from in &shapes {
+            let n: usize = from.iter().product();
+            let x: Vec<f64> = (0..n).map(|i| ((i * 7 + 3) % 11) as f64 * 0.5).collect();
+            let scs = Scs::new(x.clone(), crate::array::Shape(from.clone())).unwrap();
+            for to in &shapes {
+                let got = scs.project(crate::array::Shape(to.clone()));
+                let admissible = from.len() == to.len() && from.iter().zip(to).all(|(f, t)| t <= f);
+                if !admissible {
+                    assert!(got.is_err(), "projecting shape {from:?} to {to:?} must be an error, got a spectrum");
+                    continue;
+                }
+                let got = got.unwrap_or_else(|e| panic!("projecting shape {from:?} to {to:?} failed: {e}"));
+                assert_eq!(&got.shape().0, to, "projecting shape {from:?} to {to:?} gives shape {:?}", got.shape());
+                let m: usize = to.iter().product();
+                for k in 0..m {
+                    let kk = unrank(k, to);
+                    let mut want = 0.0;
+                    for (s, xs) in x.iter().enumerate() {
+                        let ss = unrank(s, from);
+                        let mut w = *xs;
+                        for j in 0..from.len() {
+                            let (nn, mm) = (from[j] - 1, to[j] - 1);
+                            w *= c(ss[j], kk[j]) * c(nn - ss[j], mm.wrapping_sub(kk[j]).min(mm)) / c(nn, mm) * if kk[j] <= mm { 1.0 } else { 0.0 };
+                        }
+                        want += w;
+                    }
+                    let g = got.inner().iter().nth(k).copied().unwrap();
+                    assert!((g - want).abs() <= 1e-9 * want.abs().max(1.0), "projecting shape {from:?} to {to:?}: cell {kk:?} is {g}, the definition gives {want}");
+                }
+            }
+        }
+    }
+"""
 
 
 def _deref_env(p, t):
